@@ -1,5 +1,6 @@
 import Op2Proofs.Lzh.Drain
 import Op2Proofs.Lzh.Bits
+import Op2Proofs.Lzh.Encode
 import Op2Model.Gen.Constants
 import Op2Model.Gen.Layout
 import Op2Model.Gen.Formulas
@@ -203,6 +204,64 @@ theorem C04_capacity_point (data : Array UInt8) : ∀ fuel (t : TA) (p : Nat) (h
       simp only [hs] at h ⊢
       obtain ⟨k', _, _, _⟩ := step_next k hs
       exact ih t' p' hist' k' h
+
+/-! ## the encoder round trip -/
+
+/-- the hypotheses of the round-trip law, spelled out: a literal is a byte, a match is 3..60 bytes from distance
+    1..4096 -/
+theorem C04_token_wf (tok : Token) :
+    tok.WF ↔ (match tok with
+      | .lit b => b < 256
+      | .mat len dist => 3 ≤ len ∧ len ≤ 60 ∧ 1 ≤ dist ∧ dist ≤ 4096) := by
+  cases tok <;> exact Iff.rfl
+
+/-- the length bound of the round-trip law: the payload's codes plus seven (the most the padding bits can yield) are
+    within the 65221 updates the 314-symbol tree accepts before its root counter is full -/
+theorem C04_token_limit : tokenLimit = 65214 ∧ tokenLimit + 7 + symbolCount = TF.maxCount := by decide
+
+/-- **encoder round trip**: every payload (a list of well-formed tokens, at most 65214 of them so that the tree never
+    fills) compressed by the independent encoder `Spec.encode` is decoded by the reference decoder to completion
+    (`.done`), the decoded string begins with the payload, and fewer than eight codes are decoded beyond the payload's:
+    the decoder reads `Spec.codeCount` codes in all, fewer than `ts.length + 8` -/
+theorem C04_encoder_prefix (ts : List Token) (hwf : ∀ tok ∈ ts, tok.WF) (hlen : ts.length + 7 ≤ 65221) :
+    ∃ out, Spec.decode (Spec.encode ts).toArray = (out, .done) ∧
+      (Spec.expand [] ts).reverse <+: out ∧
+      Spec.codeCount (Spec.encode ts).toArray < ts.length + 8 := by
+  obtain ⟨out, h1, h2, h3⟩ := decode_encode_prefix ts hwf (by have := C04_token_limit.1; omega)
+  have := paddingBits_lt ts
+  exact ⟨out, h1, h2, by omega⟩
+
+/-- the further codes are those of the last byte's padding bits: beyond the payload's codes the decoder reads at most
+    one code per zero bit the encoder added to fill the last byte (fewer than eight), and exactly one code in all when
+    the payload is empty -/
+theorem C04_encoder_padding_codes (ts : List Token) (hwf : ∀ tok ∈ ts, tok.WF) (hlen : ts.length + 7 ≤ 65221) :
+    Spec.codeCount (Spec.encode ts).toArray ≤ max 1 (ts.length + paddingBits ts) ∧ paddingBits ts < 8 ∧
+    paddingBits ts = bitSize (Spec.encode ts).toArray - (encodeBits (TA.init symbolCount) ts).length := by
+  obtain ⟨_, _, _, h3⟩ := decode_encode_prefix ts hwf (by have := C04_token_limit.1; omega)
+  exact ⟨h3, paddingBits_lt ts, rfl⟩
+
+/-- so every drain schedule delivers the payload first: the bytes `GetData` returns for a request of the payload's
+    length are the payload -/
+theorem C04_encoder_getData (ts : List Token) (hwf : ∀ tok ∈ ts, tok.WF) (hlen : ts.length + 7 ≤ 65221) :
+    ∃ st', getData (St.init (Spec.encode ts).toArray) (Spec.expand [] ts).length = .ok ((Spec.expand [] ts).reverse, st') := by
+  obtain ⟨out, h1, h2, _⟩ := C04_encoder_prefix ts hwf hlen
+  obtain ⟨st', h⟩ := C04_getData_first (Spec.encode ts).toArray (Spec.expand [] ts).length (by rw [h1])
+  refine ⟨st', ?_⟩
+  rw [h, h1]
+  have := List.prefix_iff_eq_take.mp h2
+  rw [List.length_reverse] at this
+  rw [← this]
+
+/-- non-vacuity: a concrete payload (two literals and an overlapping match) satisfies the hypotheses -/
+example : (∀ tok ∈ [Token.lit 65, Token.lit 66, Token.mat 5 2], tok.WF) ∧
+    [Token.lit 65, Token.lit 66, Token.mat 5 2].length + 7 ≤ 65221 := by
+  refine ⟨?_, by decide⟩
+  intro tok h
+  simp only [List.mem_cons, List.mem_nil_iff, or_false] at h
+  rcases h with rfl | rfl | rfl
+  · show 65 < 256; omega
+  · show 66 < 256; omega
+  · show 3 ≤ 5 ∧ 5 ≤ 60 ∧ 1 ≤ 2 ∧ 2 ≤ 4096; omega
 
 /-- non-vacuity: the initial object satisfies the invariant all of the above rest on -/
 example (data : Array UInt8) : Inv data (St.init data) [] 0 (Spec.run data (bitSize data + 2) (TA.init symbolCount) 0 []) :=
